@@ -373,7 +373,12 @@ def run(tier):
                "%s.%s in %s: the key is not provably lower-cased — %s; names differing only in letter case are different symbols here" % (fname, meth, fn_short, why),
                loc=loc_of(P.body[k]["blocks"][bb]["tspan"]), detail={"reason": why},
                sample={"map": fname, "method": meth, "function": k, "key": why} if ok else None)
-    rep.floor("symbol-map access sites", len(sites), 13)
+    # the floor guards against a rule that matches nothing: a read and a write of each of the five maps (13 today; how many call sites
+    # there are beyond that is the code's business - the getters may be shared)
+    rep.floor("symbol-map access sites", len(sites), 10)
+    for mname in MAPS:
+        rep.ob("C10.case|%s|accessed" % mname, per_map.get(mname, 0) >= 1, "map %s: %d access site(s) analysed" % (mname, per_map.get(mname, 0)),
+               kind="unprovable", nontrivial=False)
     for m in MAPS:
         rep.ob("C10.case|%s|covered" % m, per_map.get(m, 0) >= 2, "map %s: %d access sites analysed" % (m, per_map.get(m, 0)), kind="unprovable", nontrivial=False)
 
